@@ -60,6 +60,10 @@ def escapes(fi):
             k = source_kind(r)
             if k:
                 ks.append(k)
+            elif isinstance(r, ast.Call) and call_name(r) in ('copy', 'list', 'dict') and r.args and \
+                    not (call_name(r) == 'copy' and unparse(r.func) == 'copy.deepcopy'):
+                # copy.copy(x) / list(x) / dict(x): one level only, nested members of the default stay shared
+                ks += raw_kinds(r.args[0])
             elif isinstance(r, ast.BoolOp):
                 for v in r.values:
                     ks += raw_kinds(v)
@@ -230,6 +234,9 @@ SEEDS = [
     seed('SubElementProperty: default handed out raw again', 'C12.R1',
          (_X, "        value = copy.deepcopy(self._default_py_value)\n        try:\n            sub_node = self._get_element_by_child_name(node, self._sub_element_name, create_missing_nodes=False)\n            value_class = self.value_class.value_class_from_node(sub_node)",
           "        value = self._default_py_value\n        try:\n            sub_node = self._get_element_by_child_name(node, self._sub_element_name, create_missing_nodes=False)\n            value_class = self.value_class.value_class_from_node(sub_node)")),
+    seed('SubElementProperty: shallow copy of the default', 'C12.R1',
+         (_X, "        value = copy.deepcopy(self._default_py_value)\n        try:\n            sub_node = self._get_element_by_child_name(node, self._sub_element_name, create_missing_nodes=False)\n            value_class = self.value_class.value_class_from_node(sub_node)",
+          "        value = copy.copy(self._default_py_value)\n        try:\n            sub_node = self._get_element_by_child_name(node, self._sub_element_name, create_missing_nodes=False)\n            value_class = self.value_class.value_class_from_node(sub_node)")),
     seed('init_instance_data without deepcopy', 'C12.R1',
          (_X, "            setattr(instance, self._local_var_name, copy.deepcopy(self._default_py_value))",
           "            setattr(instance, self._local_var_name, self._default_py_value)")),
